@@ -29,7 +29,7 @@ def _base(absorbing, xhi=50.0, phimax=200.0):
     })
 
 
-def _geometry(case, rho_cap=None):
+def _geometry(case, rho_cap=None, npts=100):
     """detector points and sphere from the dimensionless case; returns (det, sphere, krho, kz, info)."""
     import holopy as hp
     from holopy.scattering import Sphere
@@ -37,13 +37,13 @@ def _geometry(case, rho_cap=None):
     k = gen.wavevec(o)
     beta = case["beta"]
     kz = case["kz"]
-    phimax = case["phimax"]
+    phimax = case["phimax"] * npts / 100.0
     # keep Phi <= phimax by construction: shrink kz if needed, then bound k*rho
     zmax = 0.8 * phimax / (1 - math.cos(beta))
     kz = max(-zmax, min(zmax, kz))
     krho_max = (phimax - abs(kz) * (1 - math.cos(beta))) / math.sin(beta)
     # stay below MieLens' documented large-rho cutoff (k rho < 3.9 * quad_npts, default 100 points)
-    krho_max = min(krho_max, 0.97 * 3.9 * 100)
+    krho_max = min(krho_max, 0.97 * 3.9 * npts)
     if rho_cap is not None:
         krho_max = min(krho_max, rho_cap / math.sin(beta))
     krho = np.array([f[0] * krho_max for f in case["frac"]])
@@ -56,15 +56,22 @@ def _geometry(case, rho_cap=None):
 
 # ------------------------------------------------------------------------------------------ a
 def strat_agree(tier):
-    return st.tuples(_base(None), st.tuples(st.integers(0, 60), st.integers(0, 60)), st.booleans()).map(
-        lambda t: dict(t[0], extra=list(t[1]), equal_orders=t[2]))
+    # npts: pupil quadrature order requested from MieLens; above the default (100) the detector may lie where the
+    # default order is not converged (Phi in (200, 2*npts]) and beyond the default large-rho cutoff
+    return st.tuples(_base(None), st.tuples(st.integers(0, 60), st.integers(0, 60)), st.booleans(),
+                     st.sampled_from([100, 100, 100, 130, 180, 260])).map(
+        lambda t: dict(t[0], extra=list(t[1]), equal_orders=t[2], npts=t[3]))
 
 
 def run_agree(case):
     from holopy.scattering import calc_field, Mie
     from holopy.scattering.theory import MieLens, Lens
     o, s = case["o"], case["s"]
-    det, sph, krho, kz, phi = _geometry(case, rho_cap=100.0)
+    npts = case.get("npts", 100)
+    if npts > 100:
+        # aim the first point at the region only the refined order resolves
+        case = dict(case, frac=[[0.6 + 0.4 * case["frac"][0][0], case["frac"][0][1]]] + case["frac"][1:])
+    det, sph, krho, kz, phi = _geometry(case, rho_cap=100.0 if npts == 100 else None, npts=npts)
     beta = case["beta"]
     kw = gen.optics_kwargs(o)
     phase = abs(kz) * (1 - math.cos(beta)) + krho.max() * math.sin(beta)
@@ -72,18 +79,21 @@ def run_agree(case):
     qp = int(math.ceil(1.5 * krho.max() * math.sin(beta)) + 40) + case["extra"][1]
     if case["equal_orders"]:
         qt = qp = max(qt, qp)
-    a = calc_field(det, sph, theory=MieLens(lens_angle=beta), **kw).values
+    ml = MieLens(lens_angle=beta) if npts == 100 else MieLens(lens_angle=beta, calculator_accuracy_kwargs={"quad_npts": npts})
+    a = calc_field(det, sph, theory=ml, **kw).values
     b = calc_field(det, sph, theory=Lens(beta, Mie(False, False), quad_npts_theta=qt, quad_npts_phi=qp), **kw).values
     pang = math.atan2(o["pol"][1], o["pol"][0])
     labels = ["absorbing" if s["m"][1] else "real", "below_focus" if kz < 0 else "above_focus",
               "equal_orders" if qt == qp else "unequal_orders", "small_angle" if beta < 0.5 else "large_angle"]
+    if npts > 100:
+        labels.append("refined_needed" if (phase > 200 or krho.max() > 390) else "refined_not_needed")
     scale = np.abs(b).max()
     err = np.abs(a - b).max() / scale
     if not np.isfinite(err) or err > 3e-6 * TOLX:
-        return Outcome(failure("mielens_vs_lens_mie", "MieLens and Lens(Mie) differ by %.3g (rel); q=(%d,%d), kz=%.4g, beta=%.4g, pol angle %.4g, m=%r"
-                               % (err, qt, qp, kz, beta, pang, s["m"]), equal_orders=qt == qp, absorbing=bool(s["m"][1])), True, labels)
+        return Outcome(failure("mielens_vs_lens_mie", "MieLens(quad_npts=%d) and Lens(Mie) differ by %.3g (rel); q=(%d,%d), kz=%.4g, beta=%.4g, pol angle %.4g, m=%r"
+                               % (npts, err, qt, qp, kz, beta, pang, s["m"]), equal_orders=qt == qp, absorbing=bool(s["m"][1])), True, labels)
     nontrivial = abs(math.sin(2 * pang)) > 0.1 and np.any(krho * math.sin(beta) > 1)
-    return Outcome(None, nontrivial, labels, metrics={"agree_" + labels[0] + "_" + labels[2]: err})
+    return Outcome(None, nontrivial, labels, metrics={"agree_" + labels[0] + "_" + labels[2] + ("_refined" if npts > 100 else ""): err})
 
 
 # ------------------------------------------------------------------------------------------ b
